@@ -655,6 +655,28 @@ def run_handmade(run, case: dict, engine: str, sample: bool = False) -> None:
             continue
         compare_pixels(ctx, fmt, px, frame_bytes(f), f.width, [fr, dkey_json(sides[sl]), lv], 'handmade-read',
                        'pixels of an independently written file')
+    # history: read -> save straight away (no load(), no pixel access: every frame is still lazy) -> read.
+    # The stored images of EVERY level, custom mipmaps included, must come through unchanged.
+    try:
+        lazy = vm.VTF.read(io.BytesIO(data))
+        out = io.BytesIO()
+        lazy.save(out)
+        again = vm.VTF.read(io.BytesIO(out.getvalue()))
+        again.load()
+    except Exception as exc:
+        ctx.bad('lazy-resave-raises', f'read -> save -> read of an independently written file raised {type(exc).__name__}: {exc}', phase='lazy-resave')
+        again = None
+    if again is not None:
+        run.count('lazy_resaves')
+        for (fr, sl, lv), px in images.items():
+            f = again._frames.get((fr, sides[sl], lv))
+            if f is None:
+                ctx.bad('lazy-resave-loses-level', f'level {lv} is missing after read -> save -> read', phase='lazy-resave')
+                break
+            if (f.width, f.height) != G.expected_dims(w, h, lv):
+                continue
+            compare_pixels(ctx, fmt, px, frame_bytes(f), f.width, [fr, dkey_json(sides[sl]), lv], 'lazy-resave',
+                           'pixels after read -> save (frames never loaded) -> read')
     # clear and regenerate the lower levels
     after = min(case['clear_after'], mips - 1)
     kept = {k: frame_bytes(f) for k, f in vtf._frames.items()}
